@@ -35,3 +35,49 @@ Definition tb_get_enum (ms : list Z) (stored : Z) : resz := enum_from_bits ms st
    from_bits(raw) = raw - k --- *)
 Definition tb_set_offset (w k obj : Z) : Z := sig_store (Sh w false) (const_norm (Sh w false) (obj + k)).
 Definition tb_get_offset (k stored : Z) : Z := stored - k.
+
+(* --- does ctx.set(target, v) raise ValueError("... cannot be assigned")?  _eval_assign_inner only complains when the
+   recursion actually REACHES a node that is not assignable: a constant or an operator hidden in a part that the write
+   window does not touch, or in a case that is not selected, is never noticed.  Mirrors Stmt.assign_tb (same windows). --- *)
+From V.Model Require Import Ast PyEval.
+Fixpoint tb_assign_err (curr : env) (lhs : expr) (start len : Z) : bool :=
+  match lhs with
+  | EOp1 OU a | EOp1 OS a => tb_assign_err curr a start len
+  | ESig _ _ => false
+  | ESlice a lo hi =>
+      let lhs_len := hi - lo in
+      if lhs_len <=? start then false
+      else let len' := if lhs_len <? start + len then lhs_len - start else len in
+           tb_assign_err curr a (start + lo) len'
+  | ECat parts =>
+      (fix go (ps : list expr) (part_stop : Z) : bool :=
+         match ps with
+         | [] => false
+         | p :: ps' =>
+             let part_start := part_stop in
+             let part_len := ewidth p in
+             let part_stop := part_start + part_len in
+             if part_stop <=? start then go ps' part_stop
+             else if start + len <=? part_start then go ps' part_stop
+             else
+               let part_lhs_start := if start <? part_start then 0 else start - part_start in
+               let part_rhs_start := if start <? part_start then part_start - start else 0 in
+               let part_rhs_len := if part_stop <=? start + len then part_stop - start - part_rhs_start
+                                   else len - part_rhs_start in
+               tb_assign_err curr p part_lhs_start part_rhs_len || go ps' part_stop
+         end) parts 0
+  | EPart a off w st =>
+      let offset := eval_tb curr off * st in
+      if w <=? start then false
+      else let len' := if w <? start + len then w - start else len in
+           tb_assign_err curr a (start + offset) len'
+  | ESwitch t cs =>
+      let tv := eval_tb curr t in
+      (fix go (cs : list (option (list pattern) * expr)) : bool :=
+         match cs with
+         | [] => false
+         | c :: cs' => if tb_case_match tv (fst c) then tb_assign_err curr (snd c) start len else go cs'
+         end) cs
+  | _ => true
+  end.
+Definition tb_set_err (curr : env) (lhs : expr) : bool := tb_assign_err curr lhs 0 (ewidth lhs).
